@@ -140,12 +140,14 @@ class Lexer:
         if self.error is None:
             self.error = msg
 
-    def _form_complete(self, start):
-        """A form whose text began at `start` has just ended at self.pos."""
+    def _form_complete(self, start, end=None):
+        """A form whose text is [start, end) has just been completed."""
+        if end is None:
+            end = self.pos
         while True:
             top = self.stack[-1] if self.stack else None
             if top is None:
-                self.top.append(("form", start, self.pos))
+                self.top.append(("form", start, end))
                 self.ntop += 1
                 return
             if top.kind == "prefix":
@@ -156,7 +158,7 @@ class Lexer:
                 start = top.start
                 if top.closer == "#_":
                     if not self.stack:
-                        self.top.append(("discard", start, self.pos))
+                        self.top.append(("discard", start, end))
                     return
                 continue
             if top.kind == "field":
@@ -167,11 +169,11 @@ class Lexer:
                 return
             return          # sequence: stays open
 
-    def _end_token(self):
+    def _end_token(self, end=None):
         kind, text, start = self.tok
         self.tok = None
         if kind == "ident":
-            self._form_complete(start)
+            self._form_complete(start, end)
             return
         # '#' + name
         if text in PREFIX_TAGS:
@@ -244,7 +246,7 @@ class Lexer:
                 self.tok = None
                 self._open_string(text, start)
                 return
-            self._end_token()
+            self._end_token(self.pos - 1)
             self._refeed(c)
             return
         # hash
@@ -266,7 +268,7 @@ class Lexer:
         if is_ident_char(c):
             self.tok[1] = text + c
             return
-        self._end_token()
+        self._end_token(self.pos - 1)
         self._refeed(c)
 
     def _refeed(self, c):
